@@ -728,6 +728,30 @@ func (g *gen) script(i int, kind string, fail, lw bool) ([]Op, []Op) {
 			}
 		}
 	}
+	if kind == "st" && fail && !lw && r.Chance(1, 2) {
+		// a local writer that flushes (List) before it fails: Rollback finds nothing buffered
+		var keep []Op
+		for _, o := range ex {
+			switch o.O {
+			case "sget", "xlget", "xllist":
+				keep = append(keep, o)
+			case "sset", "skv":
+				if strings.HasPrefix(o.K, "mavl-verif"+kind+"-") {
+					keep = append(keep, o)
+				}
+			}
+		}
+		ex = keep
+		for j := r.Range(1, 2); j > 0; j-- {
+			lo = append(lo, Op{"lset", hlib.Pick(r, localKeys), g.value(i)})
+		}
+		lo = append(lo, Op{"llist", hlib.Pick(r, localPrefixes), ""})
+		if r.Chance(1, 2) {
+			lo = append(lo, Op{"lget", hlib.Pick(r, localKeys), ""})
+		}
+		lo = append(lo, Op{"lfail", "", ""})
+		return ex, lo
+	}
 	if kind == "st" || r.Chance(1, 5) {
 		nl := r.Intn(5)
 		for j := 0; j < nl; j++ {
